@@ -3,6 +3,7 @@ import ast
 
 from ..cfg import cfg_of
 from ..model import norm, parent, walk_own, walk_with_nested_exprs
+from ..rules_codec import codec_peewee, codec_sqlite
 from ..rules_read import const_value
 from ..rules_store import _id_partition, is_param_ref
 from ..sqlmodel import local_defs, single_def, sql_sites
@@ -20,7 +21,8 @@ def json_keys(prog, model):
     return {k.value: v for k, v in zip(rets[0].value.keys, rets[0].value.values) if isinstance(k, ast.Constant)}
 
 
-def metadata_coverage(prog, rep, fi, loop, bvar):
+def metadata_coverage(prog, rep, fi, L):
+    loop, bvar = L["loop"], L["bvar"]
     rep.rule("COVERAGE", "every key of the dict BucketModel.json() returns is forwarded by the migration loop to datastore.create_bucket, on the parameter of the same meaning (id->bucket_id, type->type_id, client, hostname, created, name, data)")
     keys = json_keys(prog, "BucketModel")
     if keys is None:
@@ -46,7 +48,7 @@ def metadata_coverage(prog, rep, fi, loop, bvar):
             forwarded[a.slice.value] = p
         elif isinstance(a, ast.Call) and isinstance(a.func, ast.Attribute) and a.func.attr == "get" and norm(a.func.value) == bvar and a.args and isinstance(a.args[0], ast.Constant):
             forwarded[a.args[0].value] = p
-        elif p == "bucket_id" and isinstance(a, ast.Name):
+        elif p == "bucket_id" and isinstance(a, ast.Name) and a.id == L["idvar"]:
             forwarded["id"] = p  # the loop variable is the key of buckets(), i.e. the id
     missing = sorted(set(keys) - set(forwarded))
     rep.check(not missing, "COVERAGE", fi.short, "metadata fields forwarded", f"{sorted(forwarded)}", f"legacy bucket field(s) {missing} are read from the old store but never forwarded to create_bucket: the migrated bucket loses them", fi.loc(c), expected=sorted(keys), found=sorted(forwarded))
@@ -122,30 +124,65 @@ def id_typestate(prog, rep, fi, loop):
         rep.violation("ID-TYPESTATE", fi.short, "id-bearing events reach an update-only sink", f"`{arg.id}` comes from the legacy store with ids set (tag {tag}) and is passed to insert_many, which routes id-bearing events to replace() = UPDATE ... WHERE id = ?: in the freshly created bucket no such rows exist, so every legacy event is silently dropped", fi.loc(sink), expected="ids cleared (for e in events: e.id = None) or events rebuilt without id", found=f"{norm(sink)}")
 
 
-def visit_all(prog, rep, fi, loop):
-    rep.rule("VISIT-ALL", "the bucket loop iterates over all keys of pw_db.buckets() with no break / continue / conditional skip; events are fetched with a negative limit and no window; the fetched list is the one passed on")
-    it = norm(loop.iter)
-    base = loop.iter
-    if isinstance(base, ast.Call) and isinstance(base.func, ast.Attribute) and base.func.attr in ("items", "keys") and not base.args:
-        base = base.func.value
-    d = single_def(fi, norm(base)) if isinstance(base, ast.Name) else base
-    ok = d is not None and norm(d) == "pw_db.buckets()"
-    rep.check(bool(ok), "VISIT-ALL", fi.short, "iterates over every legacy bucket", f"for ... in {it}", f"the loop ranges over `{it}` (:= {norm(d) if d is not None else '?'}), not over every bucket of the legacy store", fi.loc(loop))
-    skips = [n for n in ast.walk(loop) if isinstance(n, (ast.Break, ast.Continue, ast.Return))]
-    conds = [n for n in loop.body if isinstance(n, (ast.If, ast.Try, ast.While))]
-    rep.check(not skips and not conds, "VISIT-ALL", fi.short, "no skipping", "no break/continue/conditional in the bucket loop", f"buckets or their events can be skipped ({[type(x).__name__ for x in skips + conds]})", fi.loc(loop))
-    gets = [c for c in ast.walk(loop) if isinstance(c, ast.Call) and norm(c.func) == "pw_db.get_events"]
+def bucket_loops(fi):
+    """top-level loops of the migration that range over the legacy bucket listing, with the expressions that denote
+    the current bucket's id / metadata dict inside each"""
+    out = []
+    for loop in [n for n in fi.node.body if isinstance(n, ast.For)]:
+        base, how = loop.iter, "keys"
+        if isinstance(base, ast.Call) and isinstance(base.func, ast.Attribute) and base.func.attr in ("items", "keys", "values") and not base.args:
+            how = base.func.attr
+            base = base.func.value
+        d = single_def(fi, norm(base)) if isinstance(base, ast.Name) else base
+        over_all = d is not None and norm(d) == "pw_db.buckets()"
+        idvar = bvar = None
+        if how == "items" and isinstance(loop.target, ast.Tuple) and len(loop.target.elts) == 2:
+            idvar, bvar = norm(loop.target.elts[0]), norm(loop.target.elts[1])
+        elif how == "values" and isinstance(loop.target, ast.Name):
+            bvar = loop.target.id
+        elif how == "keys" and isinstance(loop.target, ast.Name):
+            idvar = loop.target.id
+            for n in loop.body:
+                if isinstance(n, ast.Assign) and isinstance(n.value, ast.Subscript) and norm(n.value.slice) == idvar and norm(n.value.value) == norm(base):
+                    bvar = norm(n.targets[0])
+        idexprs = set()
+        if idvar:
+            idexprs.add(idvar)
+        if bvar:
+            idexprs.add(f"{bvar}['id']")
+        out.append({"loop": loop, "over_all": over_all, "iter": norm(loop.iter), "def": norm(d) if d is not None else "?", "idvar": idvar, "bvar": bvar, "idexprs": idexprs})
+    return out
+
+
+def loop_with(loops, pred):
+    return [L for L in loops if any(isinstance(c, ast.Call) and pred(norm(c.func)) for c in ast.walk(L["loop"]))]
+
+
+def visit_all(prog, rep, fi, loops):
+    rep.rule("VISIT-ALL", "every loop of the migration that creates buckets or copies events iterates over all of pw_db.buckets() with no break / continue / conditional skip; events are fetched with a negative limit and no window, for the bucket the loop is currently at (its own loop variable, not one left over from an earlier loop); the fetched list is the one passed on, to that same bucket")
+    used = loop_with(loops, lambda f: f in ("datastore.create_bucket", "pw_db.get_events", "datastore.insert_many", "datastore.insert_one"))
+    for L in used:
+        loop = L["loop"]
+        rep.check(bool(L["over_all"]), "VISIT-ALL", fi.short, "iterates over every legacy bucket", f"for ... in {L['iter']}", f"the loop ranges over `{L['iter']}` (:= {L['def']}), not over every bucket of the legacy store", fi.loc(loop))
+        skips = [n for n in ast.walk(loop) if isinstance(n, (ast.Break, ast.Continue, ast.Return))]
+        conds = [n for n in loop.body if isinstance(n, (ast.If, ast.Try, ast.While))]
+        rep.check(not skips and not conds, "VISIT-ALL", fi.short, "no skipping", "no break/continue/conditional in the bucket loop", f"buckets or their events can be skipped ({[type(x).__name__ for x in skips + conds]})", fi.loc(loop))
+    gl = loop_with(loops, lambda f: f == "pw_db.get_events")
+    gets = [c for L in gl for c in ast.walk(L["loop"]) if isinstance(c, ast.Call) and norm(c.func) == "pw_db.get_events"]
     if len(gets) != 1:
-        rep.violation("VISIT-ALL", fi.short, "event fetch", f"{len(gets)} calls to pw_db.get_events", fi.loc(loop))
+        rep.violation("VISIT-ALL", fi.short, "event fetch", f"{len(gets)} calls to pw_db.get_events inside the bucket loops", fi.loc())
         return
+    L = gl[0]
+    loop = L["loop"]
     gcall = gets[0]
     names = ["bucket_id", "limit", "starttime", "endtime"]
     a = {names[i]: x for i, x in enumerate(gcall.args) if i < 4}
     a.update({k.arg: k.value for k in gcall.keywords if k.arg})
     lim = const_value(a.get("limit"), fi, prog) if a.get("limit") is not None else None
-    idvar = norm(loop.target.elts[0]) if isinstance(loop.target, ast.Tuple) else norm(loop.target)
-    okl = lim is not None and lim < 0 and "starttime" not in a and "endtime" not in a and norm(a.get("bucket_id")) == idvar
+    okl = lim is not None and lim < 0 and "starttime" not in a and "endtime" not in a
     rep.check(okl, "VISIT-ALL", fi.short, "all events fetched", f"{norm(gcall)}", f"events are fetched as `{norm(gcall)}`: a non-negative limit or a window leaves legacy events behind", fi.loc(gcall), expected="get_events(bucket_id, <negative limit>)", found=norm(gcall))
+    okb = a.get("bucket_id") is not None and norm(a["bucket_id"]) in L["idexprs"]
+    rep.check(okb, "VISIT-ALL", fi.short, "events fetched for the current bucket", f"{norm(gcall)}", f"`{norm(a['bucket_id']) if a.get('bucket_id') is not None else '?'}` is not the id of the bucket this loop is at (that is {sorted(L['idexprs'])}): every pass copies the events of the wrong (or the same) bucket", fi.loc(gcall))
     asg = parent(gcall)
     sinks = [c for c in ast.walk(loop) if isinstance(c, ast.Call) and norm(c.func) == "datastore.insert_many"]
     if isinstance(asg, ast.Assign) and sinks:
@@ -155,8 +192,10 @@ def visit_all(prog, rep, fi, loop):
             dd = single_def(fi, passed.id)
             if isinstance(dd, ast.ListComp) and len(dd.generators) == 1 and norm(dd.generators[0].iter) == v and not dd.generators[0].ifs:
                 passed = ast.Name(id=v)  # one rebuilt event per fetched event
-        okp = passed is not None and norm(passed) == v and norm(sinks[0].args[0]) == idvar and not [x for x in local_defs(fi, v) if x is not asg and isinstance(x, ast.Assign)]
-        rep.check(okp, "VISIT-ALL", fi.short, "fetched list passed on", f"insert_many({idvar}, {v})", f"what is inserted (`{norm(sinks[0])}`) is not the list that was fetched for this bucket", fi.loc(sinks[0]))
+        okp = passed is not None and norm(passed) == v and norm(sinks[0].args[0]) in L["idexprs"] and not [x for x in local_defs(fi, v) if x is not asg and isinstance(x, ast.Assign)]
+        rep.check(okp, "VISIT-ALL", fi.short, "fetched list passed on", f"insert_many(<current bucket>, {v})", f"what is inserted (`{norm(sinks[0])}`) is not the list that was fetched for this bucket, into this bucket", fi.loc(sinks[0]))
+    elif not sinks:
+        rep.violation("VISIT-ALL", fi.short, "fetched list passed on", "the loop that fetches the events does not insert them", fi.loc(loop))
 
 
 def legacy_read_only(prog, rep, fi):
@@ -333,25 +372,26 @@ def check(prog, rep):
     rep.not_decided = ["byte-for-byte immutability of the legacy file (the PeeweeStorage constructor runs CREATE TABLE IF NOT EXISTS and auto_migrate)", "numeric fidelity of migrated instants (C01's undecided clause)"]
     fi = prog.func("peewee_v2_to_sqlite_v1")
     rep.unit("functions", fi.qname)
-    loops = [n for n in fi.node.body if isinstance(n, ast.For)]
-    if len(loops) != 1:
-        rep.undecided("VISIT-ALL", fi.short, "bucket loop", f"{len(loops)} top-level loops", fi.loc())
+    loops = bucket_loops(fi)
+    cl = loop_with(loops, lambda f: f == "datastore.create_bucket")
+    sl = loop_with(loops, lambda f: f in ("datastore.insert_many", "datastore.insert_one"))
+    if len(cl) != 1 or len(sl) != 1:
+        if not cl or not sl:
+            rep.violation("VISIT-ALL", fi.short, "bucket loops", f"{len(cl)} loop(s) create buckets and {len(sl)} loop(s) write events: buckets or events are not migrated", fi.loc())
+        else:
+            rep.undecided("VISIT-ALL", fi.short, "bucket loops", f"{len(cl)} loops create buckets, {len(sl)} loops write events", fi.loc())
         return
-    loop = loops[0]
-    bvar = None
-    for n in loop.body:
-        if isinstance(n, ast.Assign) and isinstance(n.value, ast.Subscript) and norm(n.value.slice) == norm(loop.target):
-            bvar = norm(n.targets[0])
-    if bvar is None and isinstance(loop.target, ast.Tuple) and norm(loop.iter).endswith(".items()"):
-        bvar = norm(loop.target.elts[1])
-    if bvar is None:
-        rep.undecided("COVERAGE", fi.short, "bucket metadata variable", "cannot find `bucket = buckets[bucket_id]`", fi.loc(loop))
+    if cl[0]["bvar"] is None:
+        rep.undecided("COVERAGE", fi.short, "bucket metadata variable", "cannot find the legacy metadata dict of the bucket loop", fi.loc(cl[0]["loop"]))
     else:
-        metadata_coverage(prog, rep, fi, loop, bvar)
-    id_typestate(prog, rep, fi, loop)
-    visit_all(prog, rep, fi, loop)
+        metadata_coverage(prog, rep, fi, cl[0])
+    id_typestate(prog, rep, fi, sl[0]["loop"])
+    visit_all(prog, rep, fi, loops)
     legacy_read_only(prog, rep, fi)
     trigger(prog, rep)
+    # "same instant, duration and data": what the legacy store decodes and the new store encodes (tables and scale constants)
+    codec_sqlite(prog, rep)
+    codec_peewee(prog, rep)
 
 
 VARIANTS = [
@@ -367,6 +407,9 @@ VARIANTS = [
     ("B legacy store opened in the other profile", MG, "pw_db = PeeweeStorage(datastore.testing)", "pw_db = PeeweeStorage()", "TRIGGER"),
     ("B existence tested after connect", SQ, "        new_db_file = not os.path.exists(filepath)\n        self.conn = sqlite3.connect(filepath)\n", "        self.conn = sqlite3.connect(filepath)\n        new_db_file = not os.path.exists(filepath)\n", "TRIGGER"),
     ("B migration for custom paths too", SQ, "        if new_db_file and not ignore_migration_check:", "        if new_db_file:", "TRIGGER"),
+    ("B events fetched with a stale loop variable", MG, "        bucket_events = pw_db.get_events(bucket_id, -1)", "        pass\n    for bucket in buckets.values():\n        bucket_events = pw_db.get_events(bucket_id, -1)", "VISIT-ALL"),
+    ("B sqlite bulk insert drops the days of a duration", SQ, "            endtime = starttime + (event.duration.total_seconds() * 1000000)\n            datastr = json.dumps(event.data)\n            event_rows.append", "            endtime = starttime + (event.duration.seconds * 1000000)\n            datastr = json.dumps(event.data)\n            event_rows.append", "CODEC"),
+    ("OK buckets created first, events copied in a second loop", MG, "        bucket_events = pw_db.get_events(bucket_id, -1)", "        pass\n    for bucket_id in buckets:\n        bucket_events = pw_db.get_events(bucket_id, -1)", "ok"),
     ("OK ids cleared by rebuilding events", MG, "        for event in bucket_events:\n            event.id = None\n        datastore.insert_many(bucket_id, bucket_events)", "        fresh = [Event(timestamp=e.timestamp, duration=e.duration, data=e.data) for e in bucket_events]\n        datastore.insert_many(bucket_id, fresh)", "ok"),
     ("OK keyword arguments", MG, '            bucket["name"],\n            bucket["data"],\n', '            name=bucket["name"],\n            data=bucket["data"],\n', "ok"),
 ]
